@@ -216,6 +216,40 @@ def run(tier):
                 disagreements.append((src, m['model'], r[1]))
             elif m['model'] != m['spec']:
                 disagreements.append(('model != spec (the theorem says this cannot happen)', src, m))
+    # ---- @media inside mixin bodies (oracle only: the Lean media model has no mixins): a body used by two callers
+    # and a plain rule used as a block-mixin must give what inlining gives
+    nmix = 120 if tier == 'quick' else 2500
+    mix_cases = []
+    for k in range(nmix):
+        body = rand_media_tree(rng, 1, rng.choice([2, 3, 4]), True, False)
+        kind = k % 3
+        if kind == 0:
+            src = '@w: 7px;\n.mx() {\n%s}\n.c1 {\n  .mx();\n}\n.c2 {\n  .mx();\n  .mx();\n}\n' % render(body, rng, 1)
+            equiv = [{'r': ['.c1'], 'b': body}, {'r': ['.c2'], 'b': body + body}]
+        elif kind == 1:
+            src = '@w: 7px;\n.base {\n%s}\n.c1 {\n  .base;\n}\n' % render(body, rng, 1)
+            equiv = [{'r': ['.base'], 'b': body}, {'r': ['.c1'], 'b': body}]
+        else:
+            src = '@w: 7px;\n.c0 {\n  .mx();\n}\n.mx() {\n%s}\n@media print {\n  .c3 {\n    .mx();\n  }\n}\n' % render(body, rng, 1)
+            equiv = [{'r': ['.c0'], 'b': body}, {'m': ['print'], 'b': [{'r': ['.c3'], 'b': body}]}]
+        if '&' in json.dumps(body) or '"m": ["print"]' in json.dumps(body) or 'only' in json.dumps(body) or 'not' in json.dumps(body):
+            continue
+        mix_cases.append((src, equiv))
+    mres = C.compile_many([(s_, dict(minify=True)) for s_, _e in mix_cases])
+    for (src, equiv), r in zip(mix_cases, mres):
+        chk.count(src, nontrivial=True)
+        want = expected_of(equiv)
+        if r[0] != 'ok':
+            chk.violation({'kind': 'media-mixin-error', 'source': src, 'expected': want, 'actual': list(r[:3])})
+            break
+        got, nested = observed_of(r[1])
+        # declarations of one rule may be split over several identical preludes by the inliner: compare per (media, selectors) in order
+        if nested or got != want:
+            merged = lambda L: [(a, b, c) for a, b, c in L]
+            chk.violation({'kind': 'media-mixin', 'source': src, 'expected': want, 'actual': r[1]})
+            if len(chk.violations) > 3:
+                break
+    chk.cov['media_in_mixin_cases'] = len(mix_cases)
     for k in (2, 60, len(sheets) - 1):
         chk.sample({'source': srcs[k], 'real': res[k][1] if res[k][0] == 'ok' else list(res[k][:3]), 'model': model[k]})
     C.replay_known(chk, PROP)
